@@ -35,6 +35,16 @@ Theorem C26_deserialize_serialize_structure_refuted_without_distinct_absids :
     option_map structure (roundtrip idS idU idU g) <> Some (structure g).
 Proof. exact refuted_without_distinct_thm. Qed.
 
+(* WF's clause "edge endpoints are objects of the graph" is necessary too, and the real pipeline
+   violates it: d2sequence ends lifeline edges in objects that are not in g.Objects; their Dst comes
+   back nil (genuine defect C26-lifeline-end-dropped, see findings.json). *)
+Theorem C26_roundtrip_refuted_for_external_endpoint :
+  exists g : graph unit unit,
+    WF (without_edges g) /\ absids_distinct g /\ json_ok idS idU idU g /\
+    roundtrip idS idU idU g <> None /\
+    option_map structure (roundtrip idS idU idU g) <> Some (structure g).
+Proof. exact refuted_for_external_endpoint_thm. Qed.
+
 (* Check.v evaluates exactly these hypotheses and this conclusion *)
 Theorem C26_wfb_spec : forall (P E : Type) (g : graph P E), wfb g = true <-> WF g.
 Proof. exact wfb_spec. Qed.
@@ -54,6 +64,7 @@ Print Assumptions C26_serialize_total.
 Print Assumptions C26_deserialize_serialize_exact.
 Print Assumptions C26_deserialize_serialize_structure.
 Print Assumptions C26_deserialize_serialize_structure_refuted_without_distinct_absids.
+Print Assumptions C26_roundtrip_refuted_for_external_endpoint.
 Print Assumptions C26_wfb_spec.
 Print Assumptions C26_distinctb_spec.
 Print Assumptions C26_same_structure_b_spec.
